@@ -17,9 +17,11 @@ from entity_query_language.symbolic import SymbolicExpression
 
 from .. import worlds as W
 from .. import qast as Q
-from ..common import exc_obs, is_exc
+from ..common import (exc_obs, is_exc, X, Y, A, L, leaves_single, leaves_xy, REPRESENTATIVE_8, grid_world, eval_entity,
+                      eval_rows, diff_lists, diff_rows, labels, row_labels, root_kind)
 from ..isolate import run_isolated, clear_registry
-from ..space import histories
+from ..space import histories, trees_by_depth
+from ..worlds import build_world
 
 ID = "C14"
 ENGINE = "eqlmc-E2"
@@ -71,7 +73,82 @@ def bounds(tier):
             "alphabet": list(KONS) + list(SYMB) + ["R", "C"] + list(DECL) + ["E1", "E2"]}
 
 
+GRID = grid_world("D", kid_cls="Kid")
+_da = ((("p", 1), ("q", 1)), (("p", 2), ("q", 1)), (("p", 3), ("q", 2)), (("p", 2), ("q", 3)))
+_do = tuple((("p", p), ("q", q), ("ref", ("@", "DA", r))) for p, q, r in ((1, 2, 0), (1, 3, 2), (2, 2, 1), (3, 1, 1)))
+TWO = (("DA", "Item", _da), ("DO", "Other", _do))
+XY_LEAVES = leaves_xy()[:10] + [("pf", "p_lt", (X, Y)), ("pc", "PLt", (X, Y))]
+
+
+def query_cases(tier):
+    """E1 family: condition trees over variables that have no domain (the registry holds exactly the world's objects)"""
+    full = leaves_single()
+    for style in ("bare", "barecall"):
+        for t in full:
+            yield ("Q1", t, style)
+            yield ("Q1", ("not", t), style)
+        for t in trees_by_depth(REPRESENTATIVE_8 if tier == "thorough" else REPRESENTATIVE_8[:5], 1):
+            if t[0] in ("and", "or"):
+                yield ("Q1", t, style)
+    for sx, sy in (("bare", "bare"), ("barecall", "bare"), ("let", "bare"), ("bare", "let"), ("barecall", "barecall")):
+        for t in trees_by_depth(XY_LEAVES, 1 if tier == "quick" else 2, binary=("and", "or")):
+            if tier == "thorough" and Q.depth(t) == 2 and hash(repr(t)) % 40:
+                continue
+            if tier == "quick" and (sx, sy) != ("bare", "bare") and Q.depth(t) == 1 and t[0] != "not" and hash(repr(t)) % 4:
+                continue
+            yield ("Q2", t, sx, sy)
+
+
+def run_query_case(case, inst):
+    if case[0] == "Q1":
+        _, tree, style = case
+        wspec = GRID
+        q = ("Q", "an", "entity", X, (tree,), (("x", style, "Item", "D"),))
+    else:
+        _, tree, sx, sy = case
+        wspec = TWO
+        q = ("Q", "an", "setof", (X, Y), (tree,), (("x", sx, "Item", "DA"), ("y", sy, "Other", "DO")))
+
+    def body():
+        world = build_world(wspec, inst)
+        ref = Q.Ref(world, inst)
+        try:
+            obj, b = Q.build(q, world, inst)
+            got = [list(obj.evaluate()), None, list(obj.evaluate())]
+            it = obj.evaluate()       # take one result and close, then a third full evaluation
+            next(it, None)
+            it.close()
+            got[1] = list(obj.evaluate())
+            if case[0] == "Q2":
+                got = [[tuple(r[s] for s in b.sel[q]) for r in g] for g in got]
+        except Exception as e:
+            got = [exc_obs(e)] * 3
+        if case[0] == "Q1":
+            exp = [env["x"] for env in ref.solutions(q)]
+            total = len(ref.domain(q[5][0]))
+            return got, exp, total
+        exp = [(env["x"], env["y"]) for env in ref.solutions(q)]
+        return got, exp, len(ref.domain(q[5][0])) * len(ref.domain(q[5][1]))
+
+    gots, exp, total = run_isolated(body)
+    d, got, which = None, gots[0], 0
+    for which, got in enumerate(gots):          # first evaluation, re-evaluation, evaluation after an early close
+        d = diff_lists(got, exp, ordered=False) if case[0] == "Q1" else diff_rows(got, exp, count=True)
+        if d is not None:
+            d = f"eval{which + 1}:{d}"
+            break
+    res = {"ok": d is None, "nontrivial": 0 < len(exp) < total, "transitions": 4 + (0 if is_exc(got) else 3 * len(got)),
+           "tags": [f"family={case[0]}", f"root={root_kind(case[1])}"] + [f"decl={s}" for s in case[2:]],
+           "outcome": f"{case[0]}:{len(exp)}"}
+    if d is not None:
+        res.update(sig=f"{case[0]}:{d}/root={root_kind(case[1])}/{'+'.join(case[2:])}",
+                   obs=labels(got) if case[0] == "Q1" else row_labels(got),
+                   exp=labels(exp) if case[0] == "Q1" else row_labels(exp))
+    return res
+
+
 def cases(tier, inst):
+    yield from query_cases(tier)
     d = 5 if tier == "quick" else 6
     for h in histories(initial(), enabled, step, d):
         if h and (h[-1][0] in "EY") and any(o in DECL for o in h) == any(o[0] == "E" for o in h):
@@ -79,6 +156,9 @@ def cases(tier, inst):
 
 
 def run_case(hist, inst):
+    if hist and hist[0] in ("Q1", "Q2"):
+        return run_query_case(hist, inst)
+
     def body():
         log = []
         queries = []      # (type name, query object, declared at step)
@@ -208,5 +288,15 @@ LEGEND = ("KB=Base(n, 7) KS=Sub(k=n) KU=USub(n, w=3) KL=Leaf(n) [class Leaf(Sub)
 
 
 def describe(hist, inst):
+    if hist and hist[0] in ("Q1", "Q2"):
+        if hist[0] == "Q1":
+            q = ("Q", "an", "entity", X, (hist[1],), (("x", hist[2], "Item", "D"),))
+            return (Q.up_world(GRID, inst) + "\n# nothing else has been constructed: the registry of Item is exactly D's objects\n"
+                    + Q.up_query(q, inst) + "\nresult = list(q.evaluate())   # expected: every Item satisfying the condition, each once; the same when "
+                    "evaluated again, and again after `it = q.evaluate(); next(it); it.close()`")
+        q = ("Q", "an", "setof", (X, Y), (hist[1],), (("x", hist[2], "Item", "DA"), ("y", hist[3], "Other", "DO")))
+        return (Q.up_world(TWO, inst) + "\n# nothing else has been constructed: the registries are exactly DA (Item) and DO (Other)\n"
+                + Q.up_query(q, inst) + "\nrows = list(q.evaluate())   # expected: every satisfying (x, y) pair, each once; the same when evaluated "
+                "again, and again after `it = q.evaluate(); next(it); it.close()`")
     return (f"history: {' ; '.join(hist)}\n# {LEGEND}\n# expected at every E<i>: exactly the instances of the type "
             "(subclasses included) constructed concretely since the last clear, each once, by identity")
